@@ -377,3 +377,81 @@ class SubpartitionWriterSpec(KernelSpec):
     def native_view(self, inst, shape, v, st):
         d = self.view(None, v)
         return d
+
+
+# ----------------------------------------------------------------------------------------------------
+# C15.b : storage::sanitize_table_name - distinct table names never share a directory
+# ----------------------------------------------------------------------------------------------------
+class SanitizeTableNameSpec(KernelSpec):
+    """sanitize_table_name(t): t itself when it only consists of [a-z0-9_.-] and does not start with '-' or '.'; otherwise a
+    name that carries the SHA-256 of the *original* name (so that two names with the same sanitised form - case pairs,
+    stripped characters - still get different directories; SHA-256 is an uninterpreted, collision-free function here and
+    the rendered text of format! is not modelled: what is decided is which bytes are hashed and when)."""
+    fn_path = "disk_store::storage::sanitize_table_name"
+    diff_cases = 4
+
+    def instantiations(self, tier):
+        return [{"nat": "sanitize_table_name"}]
+
+    def shapes(self, tier, inst):
+        return [0, 1, 2] if tier == "quick" else [0, 1, 2, 3]
+
+    def sym_inputs(self, inst, shape):
+        s = [sym("u8", f"b{i}") for i in range(shape)]
+        return {"s": s}, [z3.ULT(b.v, 128) for b in s]
+
+    def explore(self, ctx, ex, fn, inst, shape, inp, pre):
+        from .envelope import sha_stubs
+        self._rec = []
+        ex.stubs = sha_stubs([sym("u8", f"h{i}") for i in range(32)], self._rec)
+        st = ex.start(fn, [str_ref(inp["s"])], {}, pc=pre, env={})
+        return ex.explore(st)
+
+    def clean(self, s):
+        ok = B(True)
+        for b in s:
+            lower = band(binop("Ge", b, I("u8", 0x61)), binop("Le", b, I("u8", 0x7a)))
+            digit = band(binop("Ge", b, I("u8", 0x30)), binop("Le", b, I("u8", 0x39)))
+            ok = band(ok, bor(lower, digit, binop("Eq", b, I("u8", 0x5f)), binop("Eq", b, I("u8", 0x2d)), binop("Eq", b, I("u8", 0x2e))))
+        if s:
+            ok = band(ok, bnot(bor(binop("Eq", s[0], I("u8", 0x2d)), binop("Eq", s[0], I("u8", 0x2e)))))
+        return ok
+
+    def post(self, inst, shape, inp, value, state=None):
+        s = inp["s"]
+        if isinstance(value, dict):
+            v = value
+        else:
+            hashed = (state.env.get("hashed") or []) if state is not None else []
+            if hashed:
+                h = hashed[-1]
+                same = band(B(len(h) == len(s)), *[binop("Eq", a, b) for a, b in zip(h, s)]) if len(h) == len(s) else B(False)
+                v = {"modified": True, "hash_of_original": same, "result": None}
+            else:
+                v = {"modified": False, "hash_of_original": B(True), "result": list(value.elems)}
+        clean = self.clean(s)
+        conds = [("a name is used verbatim exactly when it consists of [a-z0-9_.-] and does not start with '-' or '.'", binop("Eq", B(not v["modified"]), clean))]
+        if v["modified"]:
+            conds.append(("a modified name carries the SHA-256 of the ORIGINAL table name (names with the same sanitised form stay apart)", v["hash_of_original"]))
+        elif v["result"] is not None:
+            r = v["result"]
+            conds.append(("an unmodified name is returned byte for byte", band(B(len(r) == len(s)), *[binop("Eq", a, b) for a, b in zip(r, s)])))
+        return conds
+
+    def random_inputs(self, rng, inst, shape):
+        pool = b"abz09_-.AZ /:~@"
+        return {"s": [I("u8", rng.choice(pool)) for _ in range(shape)]}
+
+    def native(self, inst, shape, inp):
+        if inp is None:
+            return ("sanitize_table_name", [])
+        return ("sanitize_table_name", [bytes(b.v for b in inp["s"]).hex() or "-"])
+
+    def parse_native(self, inst, shape, toks):
+        return {"modified": toks[0] == "modified", "hash_of_original": B(toks[1] == "true"), "result": None if toks[0] == "modified" else [I("u8", b) for b in (bytes.fromhex(toks[2]) if toks[2] != "-" else b"")]}
+
+    def native_view(self, inst, shape, v, st):
+        hashed = st.env.get("hashed") or []
+        if hashed:
+            return {"modified": True, "hash_of_original": B(True), "result": None}
+        return {"modified": False, "hash_of_original": B(True), "result": list(v.elems)}
